@@ -3,11 +3,12 @@
 Spec: the range part of spec/Cascade.tla (tile record field `rng`; LeafRange0 = what Image.save records for a leaf
 written without an explicit range; KidsRange = TileMerger._get_min_max_of_children; invariants RangeRule, LeafRangeRule:
 in every state reachable under ANY admissible merge order the range recorded in a completed tile is <<min, max>> of
-the DEFINED leaf values beneath it - not of the averaged pixels).  TLC checks them (together with the C02 theorems)
+the FINITE leaf values beneath it - not of the averaged pixels; no range when there is no finite value).  TLC checks them (together with the C02 theorems)
 for every case and emits the terminal directory with the expected range of every tile.
 
 Binding (spec -> code): the FITS runs of the C02 harness (checks/c02.py: abstract leaves lifted to real 256x256
-float32 / float64 / int16 / int32 tiles with NaNs, sparse populations, entirely-NaN leaves that toasty does not store,
+float32 / float64 / int16 / int32 tiles with NaNs and +/-inf pixels, sparse populations, entirely-NaN leaves that toasty does not
+store, leaves whose only defined pixels are infinite (no range recorded), leaves written twice,
 stale parents; written with the real PyramidIO; cascaded by cascade_images / the CLI entry point / Builder.cascade with
 parallel = 1 and with 2-3 real worker processes).  The DATAMIN / DATAMAX cards of EVERY tile file are read with
 astropy (not toasty) and compared at float32 precision with TLC's range; for the Builder runs the ImageSet's
@@ -30,43 +31,10 @@ ENUM_MATRICES_THOROUGH = base.ENUM_MATRICES_QUICK + [
     "<<<<<<1000>>, <<>>>>, <<<<>>, <<-1000>>>>>>",    # the widest range, mean 0
     "<<<<<<2>>, <<2>>>>, <<<<2>>, <<2>>>>>>",         # constant
     "<<<<<<>>, <<>>>>, <<<<1>>, <<4>>>>>>",           # one row
+    "<<<<<<1, 0>>, <<>>>>, <<<<>>, <<1, 0>>>>>>",     # +inf only besides NaN: no finite value, no range
+    "<<<<<<-1, 0>>, <<3>>>>, <<<<>>, <<>>>>>>",       # -inf beside one finite value
 ]
 ENUM_EXPR_THOROUGH = ("EnumCases(\"Float\", TRUE, FALSE, LeafMapsOver({%s}), <<6>>, TRUE)" % ", ".join(ENUM_MATRICES_THOROUGH))
-
-
-def inf_probe(ctx):
-    """Observed, NOT judged: what the code records when a leaf holds +/-inf next to finite values.  The property's
-    quantifier lists NaNs and entirely-NaN leaves; infinities are outside it (see the assumption recorded below)."""
-    import os
-    import warnings
-    import numpy as np
-    from astropy.io import fits
-    from toasty.pyramid import PyramidIO, Pos
-    from toasty.image import Image
-    from toasty.merge import cascade_images, averaging_merger
-    d = ctx.mkdtemp("infprobe")
-    pio = PyramidIO(d, default_format="fits")
-    a = np.full((256, 256), 2.0, dtype=np.float32)
-    a[0, 0] = np.inf
-    a[1, 1] = 7.0
-    b = np.full((256, 256), 3.0, dtype=np.float32)
-    b[5, 5] = -np.inf
-    b[6, 6] = -4.0
-    out = {}
-    with warnings.catch_warnings():
-        warnings.simplefilter("ignore")
-        pio.write_image(Pos(1, 0, 0), Image.from_array(a))
-        pio.write_image(Pos(1, 1, 1), Image.from_array(b))
-        cascade_images(pio, 1, averaging_merger, parallel=1)
-    for name, pos in (("leaf with +inf (finite range 2..7)", Pos(1, 0, 0)), ("leaf with -inf (finite range -4..3)", Pos(1, 1, 1)),
-                      ("root (finite range of the leaves -4..7)", Pos(0, 0, 0))):
-        path = pio.tile_path(pos, makedirs=False)
-        if os.path.exists(path):
-            with fits.open(path) as h:
-                out[name] = dict((k, h[0].header.get(k)) for k in ("DATAMIN", "DATAMAX"))
-        else:
-            out[name] = "absent"
-    return out
 
 
 def run(ctx):
@@ -78,17 +46,17 @@ def run(ctx):
                 "distinct = (dtype, depth, run, leaves+stale digest); non-trivial = at least one tile above the start level expected")
     quick = ctx.quick
     tasks = [{"name": "MCC14enum", "T": 2, "depth": 1, "expr": ENUM_EXPR_QUICK if quick else ENUM_EXPR_THOROUGH,
-              "family": "each of the 4 leaves absent or one of %s, bottom-up" % ("3 matrices" if quick else "8 matrices (9^4 populations)")}]
+              "family": "each of the 4 leaves absent or one of %s, bottom-up" % ("3 matrices" if quick else "10 matrices (11^4 populations)")}]
     tasks += base.plan_binding(ctx, "C14", PLAN, PARALLEL_PLAN, only_fits=True, builder_runs=14 if quick else 150,
                                allow_keepu=False, rewrite_p=0.35)
     def enum_jobs(t, recs):
         js = []
-        step = 1
+        step = 1 if quick else 2
         for i, rec in enumerate(recs):
             if i % step:
                 continue
             meta = base.enum_meta(rec, i, ctx.scratch)
-            has_root = any(tl["pos"] == [0, 0, 0] for tl in rec["final"])
+            has_root = any(tl["pos"] == [0, 0, 0] and tl["rng"] for tl in rec["final"])    # a root with a finite value beneath it
             if has_root and i % 2 == 0:
                 meta["run"] = "builder"
             js.append((meta, rec))
@@ -106,11 +74,7 @@ def run(ctx):
         ctx.sample({"meta": base._plain(meta), "given": [[g["pos"], g["stored"]] for g in rec["given"]][:8],
                     "expected_ranges": [[t["pos"], t["rng"]] for t in rec["final"]][:10]})
     ctx.assume("leaves are written by toasty (PyramidIO.write_image without an explicit range, some of them twice via update_image); "
-               "leaf values are finite or NaN: +/-inf pixels are outside the quantifier ('leaf contents with NaNs') and are not judged - the "
-               "code omits the card whose extreme is infinite instead of recording the finite extreme (probe recorded in the evidence); "
-               "values are exactly representable in float32, so 'to single-precision rounding' is equality of the float32 values")
+               "pixels are finite, NaN or +/-inf; the range is over the FINITE values only (a tile with no finite value beneath it must carry no "
+               "DATAMIN/DATAMAX card); finite values are exactly representable in float32, so 'to single-precision rounding' is equality of "
+               "the float32 values; pyramids in which a whole tile vanishes only because +inf and -inf cancel are outside the domain")
     ctx.assume("integer FITS tiles: every stored value (0 included) counts as a data value")
-    try:
-        ctx.note("infinite_pixels_observed_not_judged", inf_probe(ctx))
-    except Exception as e:  # noqa - an observation only
-        ctx.note("infinite_pixels_observed_not_judged", "probe raised %r" % (e,))
